@@ -772,6 +772,39 @@ Definition thread_events (far near : Z) : list wev :=
 Definition done_pid (w : wst) (p : nat) : bool :=
   existsb (fun x => match e_p (fst x) with Some q => Nat.eqb p q | None => false end) (w_done w).
 
+(* op [5; fl; mask; o1 .. ok] (fl = 0 own thread / 1 thread pool; 2 <= k <= 4 sleepers at t0 + o_i ms, o1 >= 200, gaps >= 200):
+   all sleepers are scheduled; the worker is blocked on the FIRST deadline (harness: it has passed the "sched_wait" point
+   since the first schedule); the sleepers selected by the bit mask are cancelled from the test thread (remove pops or
+   empties them, never notifies); the clock then passes every deadline.  Observation: status, number of sleeps seen
+   completed before their own time point, final state of every sleep (1 value, 3 cancelled). *)
+Fixpoint offs_ok (prev : Z) (l : list Z) : bool :=
+  match l with [] => true | o :: t => (prev + 200 <=? o) && offs_ok o t end.
+
+Fixpoint cb_ticks (prev : Z) (l : list Z) : list wev :=
+  match l with
+  | [] => []
+  | o :: t => [WTick (o - prev); WIter; WBlock; WIter; WBlock; WIter; WBlock] ++ cb_ticks o t
+  end.
+
+Definition cb_events (mask : Z) (offs : list Z) : list wev :=
+  let idx := seq 0 (length offs) in
+  map (fun p => WSchedule (fst p) (1 + Z.of_nat (fst p)) (snd p)) (combine idx offs)
+  ++ [WIter; WBlock]
+  ++ flat_map (fun i => if Z.testbit mask (Z.of_nat i) then [WRemove (1 + Z.of_nat i)] else []) idx
+  ++ cb_ticks 0 offs.
+
+Definition has_pid (l : list entry) (p : nat) : bool :=
+  existsb (fun e => match e_p e with Some q => Nat.eqb p q | None => false end) l.
+
+Definition cancel_blocked (fl mask : Z) (offs : list Z) : list Z :=
+  if ((fl =? 0) || (fl =? 1)) && (2 <=? length offs)%nat && (length offs <=? 4)%nat && offs_ok 0 offs
+     && (last offs 0 <=? 1000) && (0 <=? mask) && (mask <? 2 ^ Z.of_nat (length offs)) then
+    let w := wrun true wst0 (cb_events mask offs) in
+    let early := length (filter (fun x => snd x <? e_tp (fst x)) (w_done w)) in
+    0 :: Z.of_nat early ::
+      map (fun i => if has_pid (map fst (w_done w)) i then 1 else if has_pid (w_rm w) i then 3 else 0) (seq 0 (length offs))
+  else [1].
+
 Definition is_fin (w : wst) : bool := match w_mode w with WFin => true | _ => false end.
 
 (* ops [1; far; near] / [2; far]: scheduler in its own std::thread (worker_coro<false>);
@@ -795,6 +828,7 @@ Definition thread_obs (o : list Z) : list Z :=
   | [2; far] => race far
   | [3; far; near] => idle far near
   | [4; far] => race far
+  | 5 :: fl :: mask :: offs => cancel_blocked fl mask offs
   | _ => [1]
   end.
 
@@ -804,6 +838,16 @@ Definition thread_run (ops : list (list Z)) : list (list Z) := map thread_obs op
    or had expired — and it cannot have expired when its time point lies beyond the whole observation window *)
 Definition thread_ok (p : list Z * list Z) : bool :=
   match fst p with
+  | 5 :: _ :: mask :: offs =>
+      (* nobody completed before its own time point; the cancelled sleeps got the exception, all others their value:
+         each exactly once, whatever was cancelled while the worker was blocked *)
+      match thread_obs (fst p), snd p with
+      | [1], [1] => true
+      | 0 :: _, 0 :: early :: sts =>
+          (early =? 0) &&
+          zlist_eqb sts (map (fun i => if Z.testbit mask (Z.of_nat i) then 3 else 1) (seq 0 (length offs)))
+      | _, _ => false
+      end
   | [2; far] | [4; far] =>
       (* the destructor returned (no lost wake-up) and a still pending sleep was cancelled, not left hanging *)
       match thread_obs (fst p), snd p with
